@@ -312,6 +312,23 @@ func c19ScalarJustSet(w *World, a *Action) string {
 		if err != nil || q.Amount.Amount != x.Amount {
 			return fmt.Sprintf("signature threshold set to %d, query answers %v %v", x.Amount, q, err)
 		}
+	case *cctptypes.MsgUpdatePauser, *cctptypes.MsgUpdateAttesterManager, *cctptypes.MsgUpdateTokenController:
+		q, err := w.K.Roles(cctx, &cctptypes.QueryRolesRequest{})
+		if err != nil {
+			return fmt.Sprintf("roles query failed: %v", err)
+		}
+		var want, got, slot string
+		switch y := msg.(type) {
+		case *cctptypes.MsgUpdatePauser:
+			want, got, slot = y.NewPauser, q.Pauser, "pauser"
+		case *cctptypes.MsgUpdateAttesterManager:
+			want, got, slot = y.NewAttesterManager, q.AttesterManager, "attester manager"
+		case *cctptypes.MsgUpdateTokenController:
+			want, got, slot = y.NewTokenController, q.TokenController, "token controller"
+		}
+		if got != want {
+			return fmt.Sprintf("%s set to %s, roles query answers %s", slot, acctName(want), acctName(got))
+		}
 	case *cctptypes.MsgPauseBurningAndMinting, *cctptypes.MsgUnpauseBurningAndMinting:
 		_, want := msg.(*cctptypes.MsgPauseBurningAndMinting)
 		q, err := w.K.BurningAndMintingPaused(cctx, &cctptypes.QueryGetBurningAndMintingPausedRequest{})
